@@ -232,24 +232,33 @@ struct Issue
       res = -1;                                                                                                        \
   } while (0)
 
-// the standard statement: "tid|seq|len|payload"
+// the standard statement: "tid|seq|len|payload". One statement in three passes the payload as a C string (its length
+// goes through the thread's size cache, e.g. across statements that a dropping queue refused), the others as a
+// string_view; the text is the same
+#define VF_LOG_STD_CASE(L)                                                                                             \
+  case quill::LogLevel::L:                                                                                             \
+    if (cs) VF_LOG_RES(res, lg, quill::LogLevel::L, "{}|{}|{}|{}", tid, seq, len, cp);                                 \
+    else VF_LOG_RES(res, lg, quill::LogLevel::L, "{}|{}|{}|{}", tid, seq, len, sv);                                    \
+    break;
 inline int log_std(Lg* lg, quill::LogLevel lvl, uint32_t tid, uint32_t seq, std::string const& pl)
 {
   int res = -1;
   uint32_t const len = static_cast<uint32_t>(pl.size());
   std::string_view const sv{pl};
+  char const* const cp = pl.c_str();
+  bool const cs = ((tid * 31u + seq) % 3u) == 0;
   switch (lvl)
   {
-  case quill::LogLevel::TraceL3: VF_LOG_RES(res, lg, quill::LogLevel::TraceL3, "{}|{}|{}|{}", tid, seq, len, sv); break;
-  case quill::LogLevel::TraceL2: VF_LOG_RES(res, lg, quill::LogLevel::TraceL2, "{}|{}|{}|{}", tid, seq, len, sv); break;
-  case quill::LogLevel::TraceL1: VF_LOG_RES(res, lg, quill::LogLevel::TraceL1, "{}|{}|{}|{}", tid, seq, len, sv); break;
-  case quill::LogLevel::Debug: VF_LOG_RES(res, lg, quill::LogLevel::Debug, "{}|{}|{}|{}", tid, seq, len, sv); break;
-  case quill::LogLevel::Info: VF_LOG_RES(res, lg, quill::LogLevel::Info, "{}|{}|{}|{}", tid, seq, len, sv); break;
-  case quill::LogLevel::Notice: VF_LOG_RES(res, lg, quill::LogLevel::Notice, "{}|{}|{}|{}", tid, seq, len, sv); break;
-  case quill::LogLevel::Warning: VF_LOG_RES(res, lg, quill::LogLevel::Warning, "{}|{}|{}|{}", tid, seq, len, sv); break;
-  case quill::LogLevel::Error: VF_LOG_RES(res, lg, quill::LogLevel::Error, "{}|{}|{}|{}", tid, seq, len, sv); break;
-  case quill::LogLevel::Critical: VF_LOG_RES(res, lg, quill::LogLevel::Critical, "{}|{}|{}|{}", tid, seq, len, sv); break;
-  case quill::LogLevel::Backtrace: VF_LOG_RES(res, lg, quill::LogLevel::Backtrace, "{}|{}|{}|{}", tid, seq, len, sv); break;
+    VF_LOG_STD_CASE(TraceL3)
+    VF_LOG_STD_CASE(TraceL2)
+    VF_LOG_STD_CASE(TraceL1)
+    VF_LOG_STD_CASE(Debug)
+    VF_LOG_STD_CASE(Info)
+    VF_LOG_STD_CASE(Notice)
+    VF_LOG_STD_CASE(Warning)
+    VF_LOG_STD_CASE(Error)
+    VF_LOG_STD_CASE(Critical)
+    VF_LOG_STD_CASE(Backtrace)
   default: break;
   }
   return res;
